@@ -12,7 +12,7 @@ from . import c01, c02
 from .toposort_rules import check_toposort
 
 PROP = "C20"
-FLOORS = {"C20.R1": 25, "C20.R2": 25, "C20.R3": 30, "C20.R4": 4, "C20.R5": 6, "C20.R6": 3, "C20.R7": 1, "C20.R8": 4}
+FLOORS = {"C20.R1": 25, "C20.R2": 25, "C20.R3": 30, "C20.R4": 4, "C20.R5": 6, "C20.R6": 3, "C20.R7": 1, "C20.R8": 4, "C20.R9": 10}
 META = {
     "explanation": "Build independence: Cython runs __cinit__ base-first, the pure-Python simulation in BaseRef.__init__ runs them "
                    "derived-first, so along every MRO each field is assigned by exactly one __cinit__, no __cinit__ reads a field "
@@ -470,23 +470,41 @@ def _unordered(col, rule="C20.R5"):
 
 
 def check(col: Collector):
-    _cinit_rules(col)
-    _compiled_branches(col)
-    _build_independent_routing(col)
-    _builtin_attr_assignment(col)
-    _c_typed_fields(col)
-    _no_hash_ordering(col)
-    _unordered(col)
+    with col.rule():
+        _cinit_rules(col)
+    with col.rule():
+        _compiled_branches(col)
+    with col.rule():
+        _build_independent_routing(col)
+    with col.rule():
+        _builtin_attr_assignment(col)
+    with col.rule():
+        _c_typed_fields(col)
+    with col.rule():
+        _no_hash_ordering(col)
+    with col.rule():
+        _unordered(col)
     # one visited set shared across start vertices => any start order yields a valid order (acyclic case)
-    check_toposort(col, "C20.R5")
+    with col.rule():
+        check_toposort(col, "C20.R5")
     # the run order is fixed by ordering edges, not by the iteration order of the start set: both directions of every
     # producer -> consumer edge are recorded (shared with C02.R4)
     sub = Collector(col.repo, "C20", col.tier)
-    c02._edges(sub, "C20.R5")
-    col.obs.extend(sub.obs)
+    with col.rule():
+        c02._edges(sub, "C20.R5")
+    with col.rule():
+        col.obs.extend(sub.obs)
     # a lost ordering / producer entry leaves the relative order of two tasks to set iteration (hash seed, 32/64-bit hashes)
-    c02.inverse_effects(col, "C20.R6", only_indices=("rtasks", "tartasks", "deptasks"))
+    with col.rule():
+        c02.inverse_effects(col, "C20.R6", only_indices=("rtasks", "tartasks", "deptasks"))
     # the schedule is ONE toposort over the union of the start tasks: an order merged from per-start-ref pieces depends on the
     # iteration order of the (set-valued) start collection
     from .common import shared
-    shared(col, "C20.R8", [c01._trigger_closure], why="a schedule assembled per start location inherits the hash-seed order of the start set")
+    with col.rule():
+        shared(col, "C20.R8", [c01._trigger_closure], why="a schedule assembled per start location inherits the hash-seed order of the start set")
+    # a C-typed `_hash` field that a path of __cinit__ leaves unassigned reads 0 in the compiled class and is a missing
+    # attribute (AttributeError from hash()) in the pure-Python one
+    from . import c06
+    with col.rule():
+        shared(col, "C20.R9", [c06._hash_assigned],
+               why="an unassigned C field reads 0 when compiled and raises AttributeError in pure Python: the two builds diverge")
